@@ -35,6 +35,26 @@ func bigObj(shape, n int, kind geometry.IndexKind) geojson.Object {
 		}
 		return geojson.NewLineString(geometry.NewLine(pts, opts))
 	}
+	if shape == 2 {
+		// saw: flat top at y=8, teeth between y=6 and y=4 with one tooth down to
+		// y=0, n segments: the bounding box is [0,m] x [0,8], so every tooth
+		// bottom lies exactly on the quadtree's y midline and (m even) one
+		// vertex on its x midline
+		m := n - 3
+		pts := []geometry.Point{{X: 0, Y: 8}, {X: float64(m), Y: 8}}
+		for k := 0; k <= m; k++ {
+			y := 6.0
+			if k%2 == 1 {
+				y = 4
+				if k == (m/2)|1 {
+					y = 0
+				}
+			}
+			pts = append(pts, geometry.Point{X: float64(m - k), Y: y})
+		}
+		pts = append(pts, pts[0])
+		return geojson.NewPolygon(geometry.NewPoly(pts, nil, opts))
+	}
 	// ring: zigzag positions 0..n-3, then down to y=-8 and back: n segments
 	m := n - 2 // positions on the zigzag
 	pts := make([]geometry.Point, 0, n+1)
@@ -50,6 +70,9 @@ func bigObj(shape, n int, kind geometry.IndexKind) geojson.Object {
 func zigSegs(shape, n int) int {
 	if shape == 0 {
 		return n
+	}
+	if shape == 2 {
+		return n - 1
 	}
 	return n - 3
 }
@@ -287,8 +310,8 @@ func c09BigMoved(r *rt.Run) {
 		shape, n, di int
 	}
 	var jobs []job
-	for shape := 0; shape < 2; shape++ {
-		for _, n := range []int{33, 65, 68, 257, 4097} {
+	for shape := 0; shape < 3; shape++ {
+		for _, n := range []int{33, 65, 67, 68, 257, 4097} {
 			for di := range c09MoveDeltas {
 				jobs = append(jobs, job{shape, n, di})
 			}
@@ -350,7 +373,7 @@ func evalC09BigMoved(c *rt.Case) (bool, string, string, error) {
 		return false, "", "", fmt.Errorf("malformed case")
 	}
 	shape, n, k, s, pi, di := int(c.Nums[0]), int(c.Nums[1]), int(c.Nums[2]), int(c.Nums[3]), int(c.Nums[4]), int(c.Nums[5])
-	if shape < 0 || shape > 1 || n < 4 || n > 1<<20 || k < 0 || k >= len(c09BigKinds) || di < 0 || di >= len(c09MoveDeltas) || s < 0 || s >= zigSegs(shape, n) {
+	if shape < 0 || shape > 2 || n < 4 || n > 1<<20 || k < 0 || k >= len(c09BigKinds) || di < 0 || di >= len(c09MoveDeltas) || s < 0 || s >= zigSegs(shape, n) {
 		return false, "", "", fmt.Errorf("malformed case")
 	}
 	o, _ := bigMoved(shape, n, c09BigKinds[k], c09MoveDeltas[di])
